@@ -157,9 +157,10 @@ Definition marker_ok (m : pystr) : bool :=
   | p :: d :: ds => is_percent p && forallb is_digit (d :: ds)
   | [] => false
   end.
+(** the order symbol of a descriptor may be any of the six bond symbols: . - = # $ are the orders
+    0 1 2 3 4, : is 1.5 (reported as the text "1.5") *)
 Definition desc_ok (d : desc) : bool :=
-  char_in (d_kind d) kind_chars && forallb is_alnum (d_label d) &&
-  match d_sym d with None | Some BSingle | Some BDouble | Some BTriple | Some BZero => true | _ => false end.
+  char_in (d_kind d) kind_chars && forallb is_alnum (d_label d).
 Definition tok_ok (t : tok) : bool :=
   match t with
   | TAtom e => str_in e organic_atoms
